@@ -47,6 +47,12 @@ class RemoveFutureImports(SimpleCodemod):
                     for name in original_node.names
                     if name.name.value not in DEPRECATED_NAMES
                 ]
+                if updated_names:
+                    # the last remaining name must not keep the comma that
+                    # separated it from a removed one
+                    updated_names[-1] = updated_names[-1].with_changes(
+                        comma=cst.MaybeSentinel.DEFAULT
+                    )
                 self.add_change(original_node, self.change_description)
                 return (
                     updated_node.with_changes(names=updated_names)
